@@ -84,3 +84,10 @@ func TestC33_Known_StagedDeleteResurrected(t *testing.T) {
 		script{Cfg: caseCfg{Dim: 2, NIDs: 2, Mode: 0, Buffer: true}, Ops: []op{up(it("k00", 0, 1, 1, 0)), up(it("k01", 0, 2, 0, 1)), {K: "D", ID: "k01"}, {K: "O"}, {K: "X"}}},
 		script{Cfg: caseCfg{Dim: 2, NIDs: 2, Mode: 0, Buffer: true}, Ops: []op{up(it("k00", 0, 1, 1, 0)), up(it("k01", 0, 2, 0, 1)), {K: "D", ID: "k00"}, {K: "O"}, {K: "X"}}})
 }
+
+// ContentSize=BigData: Upsert a, Optimize, then in one transaction Get(a), Upsert(an id sorting before a), Get(a).
+func TestC33_Known_BigDataSecondRead(t *testing.T) {
+	knownCase(t, slugBigData,
+		"ContentSize=BigData: Upsert(k19) Optimize, then in one transaction Get(k19) Upsert(k02) Get(k19): the second Get fails with 'unexpected end of JSON input' (stale slot pointer in the item action tracker skips the value fetch)",
+		script{Cfg: caseCfg{Dim: 2, NIDs: 20, Mode: 0, Content: 2}, Ops: []op{up(it("k19", 0, 1, 1, 0)), {K: "O"}, {K: "G", ID: "k19"}, up(it("k02", 0, 2, 0, 1)), {K: "G", ID: "k19"}}})
+}
